@@ -306,7 +306,7 @@ Proof.
   intros Hb Hc Hk Hrej Hs Hw. exists (Some (blob, comment)).
   split; [exact (dec_add_new pk blob comment blob w Hb Hc Hk Hrej Hw)|].
   unfold oracle_add. rewrite reply_roundtrip by exact Hs.
-  cbn [option_eqb]. rewrite pair_eqb_refl, obytes_eqb_refl. reflexivity.
+  cbn [option_eqb]. rewrite pair_eqb_refl. destruct scripted; reflexivity.
 Qed.
 
 Lemma oracle_add_legacy_model pk blob comment scripted :
@@ -316,7 +316,7 @@ Lemma oracle_add_legacy_model pk blob comment scripted :
 Proof.
   intros Hk Hs. exists (Some (blob, [])). split; [exact (dec_add_legacy pk blob blob Hk)|].
   unfold oracle_add. rewrite reply_roundtrip by exact Hs.
-  cbn [option_eqb]. rewrite pair_eqb_refl, obytes_eqb_refl. reflexivity.
+  cbn [option_eqb]. rewrite pair_eqb_refl. destruct scripted; reflexivity.
 Qed.
 
 Lemma oracle_wait_model code scripted :
@@ -326,7 +326,7 @@ Lemma oracle_wait_model code scripted :
 Proof.
   intros Hs. split; [apply wait_req_roundtrip|].
   unfold oracle_wait. rewrite reply_roundtrip by exact Hs.
-  cbn [option_eqb]. rewrite N.eqb_refl, obytes_eqb_refl. reflexivity.
+  cbn [option_eqb]. rewrite N.eqb_refl. destruct scripted; reflexivity.
 Qed.
 
 Lemma oracle_list_model slots err :
@@ -336,7 +336,7 @@ Lemma oracle_list_model slots err :
 Proof.
   intros Hn Hf He Hne. destruct (list_resp_roundtrip slots err Hn Hf He Hne) as [w [H1 H2]].
   exists w, slots, err. split; [exact H1|]. split; [exact H2|].
-  unfold oracle_list. rewrite lbytes_eqb_refl, obytes_eqb_refl. reflexivity.
+  unfold oracle_list. destruct err; [reflexivity|]. rewrite lbytes_eqb_refl. reflexivity.
 Qed.
 
 (** a slot operation's failure (non-empty text) reaches the client as that error *)
@@ -349,7 +349,7 @@ Lemma oracle_slot_err_model attest slot pem c t :
 Proof.
   intros Hp Ht. destruct (slot_resp_roundtrip attest pem (Some (c :: t)) Hp Ht) as [w [H1 H2]].
   exists w. split; [exact H1|]. split; [exact H2|]. split; [apply slot_req_roundtrip|].
-  unfold oracle_slot. rewrite !obytes_eqb_refl. reflexivity.
+  unfold oracle_slot. rewrite obytes_eqb_refl. reflexivity.
 Qed.
 
 (** * statements exported to Properties/C13.v *)
